@@ -1071,6 +1071,18 @@ def project(case, obs):
 # ---------------------------------------------------------------------------
 # generator
 
+def _escapes(stmts):
+    """does an exception escape this statement list (judged from the text)?"""
+    for st in stmts:
+        if st[0] == "raise":
+            return True
+        if st[0] == "act" and _escapes(st[8]):
+            return True
+        if st[0] == "reenter" and _escapes(st[2]):
+            return True
+    return False
+
+
 class Gen(object):
     def __init__(self, rng, depth=4, width=4, p_raise=0.15, p_typed=0.3, p_fault_ser=0.0, p_handoff=0.08,
                  p_reenter=0.05, p_tb=0.05, p_finish_again=0.05, base_only=0.3, sr=0.15, p_try=0.15,
@@ -1215,7 +1227,7 @@ class Gen(object):
             fs = fs + [[19, {"i": h}]]
             succ = succ + [[19, {"i": h}]]
             body = self.stmts(depth - 1, enclosing + [h], c)
-            if sers is None and rng.random() < self.p_finish_inside and not (body and body[-1][0] == "raise"):
+            if sers is None and rng.random() < self.p_finish_inside and not _escapes(body):
                 # finish() called as the last thing inside the action's own block (the block's exit then finishes again: no-op)
                 body = body + [["finish_again", h, self.exn() if rng.random() < 0.5 else None]]
                 if rng.random() < 0.4:
